@@ -659,6 +659,8 @@ Fixpoint dec_ops (fuel : nat) (l : list N) : list op :=
   | 16 :: sz :: r => OEarlyReserve sz :: dec_ops fuel r
   | 17 :: p :: k :: m :: r => OFlipPath p k m :: dec_ops fuel r
   | 18 :: p :: k :: m :: r => OOrUpper p k m :: dec_ops fuel r
+  (* a fault with the interrupted register context (RSP, RIP): the handler's behaviour does not depend on it *)
+  | 19 :: a :: info :: _ :: _ :: r => OFault a info :: dec_ops fuel r
   | _ => []
   end end.
 
